@@ -106,6 +106,9 @@ func (h *killedHandler) cleanupIfNotRestarting() {
 		ActorRef: h.ctx.ref,
 		Type:     reflect.TypeOf(h.ctx.actor),
 	})
+
+	// 失败后被（非优雅）停止的 Actor 邮箱仍处于暂停状态，恢复邮箱以便排在其后的普通消息被排空并进入死信，而不是永久滞留
+	h.ctx.mailbox.Resume()
 }
 
 // cleanupScheduler 清理调度器
